@@ -33,6 +33,12 @@ class AbsClsRef:
     def __init__(self, pycls):
         self.pycls = pycls
 
+    def __eq__(self, o):
+        return isinstance(o, AbsClsRef) and o.pycls is self.pycls
+
+    def __hash__(self):
+        return hash(self.pycls)
+
 
 class Result:
     def __init__(self, kind, name, args, kwargs):
@@ -97,6 +103,14 @@ def judge(fn, cached=False, skip_own=False, module_tree=None, class_node=None):
         raise AnalysisError(f"{fn.name}: signature")
     wit = []
     n = 0
+    # module-level state is shared by every mapper and every call, as it is in
+    # a process: what one dispatch leaves there, the next one sees
+    from .absint import module_env
+    shared_glob = {"_NOT_IN_CACHE": _SENTINEL,
+                   "primitives": Opaque("module primitives"),
+                   "Mapper": Opaque("class Mapper")}
+    if module_tree is not None:
+        shared_glob = module_env(module_tree, shared_glob)
 
     def mk_interp(mapper):
         def getattr_(it, node, args, kw):
@@ -131,6 +145,9 @@ def judge(fn, cached=False, skip_own=False, module_tree=None, class_node=None):
                 return isinstance(v, list)
             if what.endswith("tuple"):
                 return isinstance(v, tuple)
+            _r = __import__("pv.absint", fromlist=["x"]).default_isinstance(v, c)
+            if _r is not None:
+                return _r
             raise AnalysisError(f"isinstance(..., {c!r})")
 
         def attrs(it, node, base, attr):
@@ -165,14 +182,7 @@ def judge(fn, cached=False, skip_own=False, module_tree=None, class_node=None):
                 expr, AbsNode) else ("hook", "map_foreign")
             return mp.marker(*e)(expr, *a, **k)
 
-        glob = {"_NOT_IN_CACHE": _SENTINEL,
-                "primitives": Opaque("module primitives"),
-                "Mapper": Opaque("class Mapper")}
-        from .absint import Closure
-        if module_tree is not None:
-            for st in module_tree.body:
-                if isinstance(st, ast.FunctionDef):
-                    glob.setdefault(st.name, Closure(st, glob))
+        glob = shared_glob
         helpers = {}
         if class_node is not None:
             # private helper methods of the routine's class: self._x(...)
@@ -221,6 +231,28 @@ def judge(fn, cached=False, skip_own=False, module_tree=None, class_node=None):
                     else:
                         want = expected(pycls, handlers)
                     label = f"{desc}, handlers {list(hs)}, extras {extras}{kw}"
+                    if not extras:
+                        # histories: another mapper (any other handler subset)
+                        # has dispatched a node of this class before
+                        for k2 in range(len(names) + 1):
+                            for hs2 in itertools.combinations(names, k2):
+                                if hs2 == hs:
+                                    continue
+                                try:
+                                    run(AbsMapper(hs2), AbsNode(pycls), (), {})
+                                except (Raised, StepBound):
+                                    pass
+                                mp2 = AbsMapper(hs)
+                                try:
+                                    g2 = run(mp2, node, (), {})
+                                except (Raised, StepBound):
+                                    g2 = None
+                                if not (isinstance(g2, Result) and (
+                                        g2.kind, g2.name) == want):
+                                    wit.append(
+                                        f"{label}, after a mapper with handlers "
+                                        f"{list(hs2)} dispatched the same node "
+                                        f"class: {g2!r}, expected {want[1]}")
                     try:
                         got = run(mp, node, extras, kw)
                     except Raised as r:
